@@ -314,6 +314,13 @@ func drawRequest(w *simrt.Tape) (*request, string) {
 	for i, p := range desc.Parameters {
 		if omit > 0 && w.Bool(30) {
 			tag = "defaults"
+			if w.Bool(30) {
+				// a stranger whose name differs from the omitted parameter's only in letter case (names
+				// are case sensitive: the parameter still takes its default)
+				if v := swapFirstLetterCase(p.Name); v != p.Name {
+					req.Parameters = append(req.Parameters, reqValue{v, col[l.start[i]]*1.5 + 1})
+				}
+			}
 			continue
 		}
 		req.Parameters = append(req.Parameters, reqValue{p.Name, col[l.start[i]]})
@@ -326,6 +333,10 @@ func drawRequest(w *simrt.Tape) (*request, string) {
 		req.Parameters[i], req.Parameters[j] = req.Parameters[j], req.Parameters[i]
 	}
 	T := sizeDraw(w, 12, 70)
+	if maxDim == 0 && w.Choose(25) == 24 && runsOverZeroSteps(name, desc, col) {
+		// every series empty: a run over zero timesteps (for the models whose kernels accept that)
+		T = 0
+	}
 	ins := domains.GenInputs(w, name, col, maxDim, T)
 	lenKind := w.Choose(10) // 0..6 equal, 7 one shorter, 8 one longer, 9 some missing
 	for k, in := range desc.Inputs {
@@ -340,7 +351,7 @@ func drawRequest(w *simrt.Tape) (*request, string) {
 			vals = vals[:T-1]
 			tag = "unequal-lengths"
 		}
-		if lenKind == 8 && k == len(desc.Inputs)-1 && len(desc.Inputs) > 1 {
+		if lenKind == 8 && k == len(desc.Inputs)-1 && len(desc.Inputs) > 1 && T > 0 {
 			vals = append(cloneF(vals), vals[0])
 			tag = "unequal-lengths"
 		}
@@ -930,4 +941,47 @@ func engineOwSingle(rc *RunCtx) *Outcome {
 	o.Nontrivial = true
 	o.probe("ow_single_process:" + kind)
 	return o
+}
+
+
+func swapFirstLetterCase(name string) string {
+	b := []byte(name)
+	for i, c := range b {
+		switch {
+		case c >= 'a' && c <= 'z':
+			b[i] = c - 32
+			return string(b)
+		case c >= 'A' && c <= 'Z':
+			b[i] = c + 32
+			return string(b)
+		}
+	}
+	return name
+}
+
+
+// runsOverZeroSteps reports whether a direct one-cell run of the model over zero timesteps works
+// (some kernels read the first element of a series unconditionally: for them an empty series is
+// outside the working domain, through every front end).
+var zeroStepsOK = map[string]bool{}
+
+func runsOverZeroSteps(name string, desc sim.ModelDescription, col []float64) (ok bool) {
+	if v, seen := zeroStepsOK[name]; seen {
+		return v
+	}
+	defer func() {
+		if r := recover(); r != nil {
+			if _, is := r.(refCrash); !is {
+				panic(r)
+			}
+			ok = false
+		}
+		zeroStepsOK[name] = ok
+	}()
+	empty := make([][]float64, len(desc.Inputs))
+	for i := range empty {
+		empty[i] = []float64{}
+	}
+	refRun(name, desc, col, 0, initialStateRow(name, desc, col, 0), empty, 0)
+	return true
 }
